@@ -98,6 +98,8 @@ class Eff:
             return "except -> handler (%s)" % show(d["exc"])
         if k in ("inline", "inline_exit"):
             return "%s %s" % (k, d["name"])
+        if k == "yield":
+            return "yield %s%s" % ("from " if d.get("frm") else "", show(d["value"]))
         return k
 
 
@@ -451,7 +453,7 @@ class Executor:
                 return ("kindcls", KIND_CLASSES[last])
             # a module constant bound exactly once to a literal is that literal (_ROOT_KEY = (0,))
             if ref[1].bind_count.get(last, 0) == 1:
-                lit = _literal_term(ref[2])
+                lit = _literal_term(ref[2], ref[1])
                 if lit is not None:
                     return lit
             return ("modvar", "%s.%s" % (ref[1].name, last), ref[2])
@@ -690,7 +692,33 @@ class Executor:
                 yield s1, ("raise", it[1])
                 continue
             loop = s1.new_uid()
-            yield from self._for_iter(node, it, loop, 0, s1)
+            if it[0] == "tuple" and len(it) <= 9 and all(_concrete(x) for x in it[1:]):
+                yield from self._for_literal(node, it, loop, 0, s1)
+            else:
+                yield from self._for_iter(node, it, loop, 0, s1)
+
+    def _for_literal(self, node, it, loop, k, st: St):
+        """for x in <literal tuple>: the iterations are the elements, in order"""
+        mod = st.frame.mod
+        if k >= len(it) - 1:
+            st.loops[(loop, node.lineno)] = k
+            st.trace.append(Eff("loopexit", node, mod, loop=loop, n=k, iter=it, literal=True))
+            yield from self.exec_block(node.orelse, st)
+            return
+        st.trace.append(Eff("loopiter", node, mod, loop=loop, k=k, iter=it, var=it[1 + k], literal=True))
+        for s1, out in self._assign(node.target, it[1 + k], st, node):
+            if out is not None:
+                yield s1, out
+                continue
+            for s2, out2 in self.exec_block(node.body, s1):
+                if out2 is None or out2[0] == "continue":
+                    yield from self._for_literal(node, it, loop, k + 1, s2)
+                elif out2[0] == "break":
+                    s2.loops[(loop, node.lineno)] = k + 1
+                    s2.trace.append(Eff("loopexit", node, mod, loop=loop, n=k + 1, iter=it, broke=True, literal=True))
+                    yield s2, None
+                else:
+                    yield s2, out2
 
     def _for_iter(self, node, it, loop, k, st: St):
         mod = st.frame.mod
@@ -1110,6 +1138,24 @@ class Executor:
     def ex_Await(self, node, st):
         yield from self.eval(node.value, st)
 
+    def ex_Yield(self, node, st):
+        if node.value is None:
+            st.trace.append(Eff("yield", node, st.frame.mod, value=const(None), frm=False))
+            yield st, const(None)
+            return
+        for s1, t in self.eval(node.value, st):
+            if not is_raise(t):
+                s1.trace.append(Eff("yield", node, s1.frame.mod, value=t, frm=False))
+                t = const(None)
+            yield s1, t
+
+    def ex_YieldFrom(self, node, st):
+        for s1, t in self.eval(node.value, st):
+            if not is_raise(t):
+                s1.trace.append(Eff("yield", node, s1.frame.mod, value=t, frm=True))
+                t = const(None)
+            yield s1, t
+
     # ---- tests -------------------------------------------------------
     def truth(self, node, st: St):
         """Yield (state, bool) for a test in control position."""
@@ -1205,6 +1251,13 @@ class Executor:
             return True
         if h in ("tuple", "list") and len(t) == 1:
             return False
+        if h == "call" and t[1] == ("builtin", "isinstance") and len(t[2]) == 2 and t[2][1] == ("builtin", "type"):
+            x = t[2][0]
+            if x[0] == "builtin" and x[1] in TYPE_BUILTINS:
+                return True
+            if x[0] == "const":
+                return False
+            return None
         if h == "call" and t[1] == ("builtin", "isinstance") and len(t[2]) == 2 and t[2][0] == EV and st.kind is not None:
             ks = _kind_set(t[2][1])
             if ks is not None:
@@ -1256,6 +1309,9 @@ class Executor:
                     return _fold_cmp(op, a[1], b[1])
                 except Exception:
                     return None
+            if op in ("Is", "IsNot", "Eq", "NotEq") and a != b and {a[0], b[0]} <= {"const", "builtin"} and "builtin" in (a[0], b[0]) \
+                    and all(x[0] == "const" or x[1] in TYPE_BUILTINS for x in (a, b)):
+                return op in ("IsNot", "NotEq")      # a type object is never a constant, nor another type
             if a == b and _pure(a):
                 if op in ("Eq", "Is", "LtE", "GtE"):
                     return True
@@ -1566,15 +1622,31 @@ class Executor:
 
 
 # ----------------------------------------------------------------------
-def _literal_term(node):
+TYPE_BUILTINS = {"int", "float", "bool", "str", "bytes", "list", "dict", "tuple", "set", "object", "type", "complex", "bytearray", "frozenset"}
+
+
+def _literal_term(node, mod=None):
     if isinstance(node, ast.Constant):
         return const(node.value)
+    if isinstance(node, ast.Name) and mod is not None and node.id in TYPE_BUILTINS and node.id not in mod.bindings:
+        return ("builtin", node.id)
+    if isinstance(node, ast.Tuple) and mod is not None and node.elts and not all(isinstance(e, ast.Constant) for e in node.elts):
+        elts = [_literal_term(e, mod) for e in node.elts]
+        return None if any(e is None for e in elts) else ("tuple",) + tuple(elts)
     if isinstance(node, ast.UnaryOp) and isinstance(node.op, ast.USub) and isinstance(node.operand, ast.Constant) \
             and isinstance(node.operand.value, (int, float)) and not isinstance(node.operand.value, bool):
         return const(-node.operand.value)
     if isinstance(node, ast.Tuple) and all(isinstance(e, ast.Constant) for e in node.elts):
         return ("tuple",) + tuple(const(e.value) for e in node.elts)
     return None
+
+
+def _concrete(t):
+    if t[0] in ("const", "builtin", "kindcls"):
+        return True
+    if t[0] == "tuple":
+        return all(_concrete(x) for x in t[1:])
+    return False
 
 
 def _as_load(node):
